@@ -25,8 +25,9 @@ open Rpylib.Grid
 /-- `axis[k]` -/
 def pt (ax : List Rat) (k : Nat) : Rat := ax.getD k 0
 
-/-- `right_point` of the n-d branch clamps with `len(self.axes[0])` on *every* axis (spatial.py:93 FIXME);
-    in 1-d `n0 = ax.length` (`rightPoint` of Grid.lean). -/
+/-- `right_point` with the clamp length as a parameter: `axis[min(n0 - 1, k + 1)]`.  The code (1-d and, since
+    /repo 56f1018, every coordinate of the n-d branch, spatial.py:91-96) uses `n0 = len(axis)` (`cellHi`); before
+    56f1018 the n-d branch used `len(self.axes[0])` on every axis (`cellHiOld`, kept as the negation witness). -/
 def rightPointN (n0 : Nat) (ax : List Rat) (k : Nat) : Rat := ax.getD (min (n0 - 1) (k + 1)) 0
 
 /-- `x_left = grid.middle(grid.left_point(k), x)` -/
@@ -36,6 +37,10 @@ def cellLo (mid : Rat → Rat → Rat) (ax : List Rat) (k : Nat) : Rat := mid (l
 def cellHiN (mid : Rat → Rat → Rat) (n0 : Nat) (ax : List Rat) (k : Nat) : Rat := mid (pt ax k) (rightPointN n0 ax k)
 
 def cellHi (mid : Rat → Rat → Rat) (ax : List Rat) (k : Nat) : Rat := cellHiN mid ax.length ax k
+
+/-- the n-d upper cell end *before* /repo 56f1018: clamped with the length of the first axis -/
+def cellHiOld (mid : Rat → Rat → Rat) (axes : List (List Rat)) (ax : List Rat) (k : Nat) : Rat :=
+  cellHiN mid (axes.headD []).length ax k
 
 /-- a cell-boundary function given by a finite table `(a, b, middle(a,b))` (the probability median of
     `CTMCGridProbabilityStep.middle` is a root search; the harness measures it); arithmetic mean elsewhere -/
@@ -103,12 +108,12 @@ def cartesian {α : Type} : List (List α) → List (List α)
   | [] => [[]]
   | xs :: rest => xs.flatMap (fun x => (cartesian rest).map (fun t => x :: t))
 
-/-- `len(grid.axes[0])` -/
+/-- `len(grid.axes[0])` (only `_pre_computation`'s `low_nb_of_pts` test still uses it) -/
 def len0 (axes : List (List Rat)) : Nat := (axes.headD []).length
 
 /-- the 3^d - 1 products of centre/left/right intervals, the all-centre box discarded (`next(cartesian_product)`) -/
 def blocks (mid : Rat → Rat → Rat) (axes : List (List Rat)) (o : Nat) : List Box :=
-  (cartesian (axes.map (fun ax => parts mid (len0 axes) ax o))).drop 1
+  (cartesian (axes.map (fun ax => parts mid ax.length ax o))).drop 1
 
 /-- `compute_intensity_of_jumps`, any d (also `_pre_computation`'s `intensity_of_jumps`) -/
 def intensityNd (mid : Rat → Rat → Rat) (axes : List (List Rat)) (o : Nat) (m : Box → Rat) : Rat :=
@@ -116,7 +121,7 @@ def intensityNd (mid : Rat → Rat → Rat) (axes : List (List Rat)) (o : Nat) (
 
 /-- cell of the state with coordinates `cs` -/
 def cellBox (mid : Rat → Rat → Rat) (axes : List (List Rat)) (cs : List Nat) : Box :=
-  (axes.zip cs).map (fun p => (cellLo mid p.1 p.2, cellHiN mid (len0 axes) p.1 p.2))
+  (axes.zip cs).map (fun p => (cellLo mid p.1 p.2, cellHi mid p.1 p.2))
 
 /-- rate of the jump to the state with coordinates `cs` (`model.mass(mid_point_left, mid_point_right)`,
     samplingfactory.py:161-166); the origin is not a jump target.  The copula model's joint mass is *not* truncated
